@@ -225,7 +225,8 @@ Proof.
   - destruct (_ || _); [inversion H; subst; split; reflexivity|].
     destruct (value_by_tag d tag_MsgSeqNum) as [sb| | |]; try (inversion H; subst; split; reflexivity).
     destruct (atoi sb); [|inversion H; subst; split; reflexivity].
-    destruct (value_by_tag d tag_MsgType); inversion H; subst; split; reflexivity.
+    destruct (value_by_tag d tag_MsgType) as [mt| | |]; try (inversion H; subst; split; reflexivity).
+    destruct (c_seqreset cfg && beq mt msgtype_SequenceReset); inversion H; subst; split; reflexivity.
   - destruct (lstate_eqb (s_state s) WaitingTestReqAnswer) eqn:E.
     + exfalso. unfold not_logged, logged_or_probing in N. rewrite E, orb_true_r in N. discriminate.
     + inversion H; subst. split; reflexivity.
